@@ -38,7 +38,8 @@ RowVisible(t, r) == IF ~Sees(t, r.cr) THEN FALSE
                     ELSE FirstVisible(t, r.vers) # <<>>
 RowVals(t, r) == FirstVisible(t, r.vers)[1].vals
 TabVisible(t, o) == IF ~Sees(t, o.cr) THEN FALSE ELSE ~\E d \in o.drop : Sees(t, d)
-TabIdx(t, name) == {i \in 1..Len(tabs) : tabs[i].name = name /\ TabVisible(t, tabs[i])}
+TabIdxOn(T, t, name) == {i \in 1..Len(T) : T[i].name = name /\ TabVisible(t, T[i])}
+TabIdx(t, name) == TabIdxOn(tabs, t, name)
 HasTab(t, name) == TabIdx(t, name) # {}
 TheTab(t, name) == CHOOSE i \in TabIdx(t, name) : TRUE
 VisIdx(t, o) == {j \in 1..Len(o.rows) : RowVisible(t, o.rows[j])}
@@ -80,24 +81,23 @@ InsRows(q, o) == [i \in 1..Len(q.rows) |->
                        THEN Coerce(q.rows[i][CHOOSE k \in 1..Len(q.cols) : q.cols[k] = c], o.cols[c].ty) ELSE NullV]]
 
 NewRow(vals, t) == [vers |-> <<[vals |-> vals, by |-> t]>>, cr |-> t, del |-> {}]
-SetTab(i, o) == [tabs EXCEPT ![i] = o]
 
 \* result of a DML statement: [ok, n, tabs]
-Dml(q, t) ==
-  IF ~HasTab(t, q.tbl) THEN [ok |-> FALSE, n |-> 0, tabs |-> tabs]
-  ELSE LET ti == TheTab(t, q.tbl) o == tabs[ti] vis == SeqOfSet(VisIdx(t, o)) olds == TabRows(t, o) IN
+DmlOn(T, q, t) ==
+  IF TabIdxOn(T, t, q.tbl) = {} THEN [ok |-> FALSE, n |-> 0, tabs |-> T]
+  ELSE LET ti == CHOOSE i \in TabIdxOn(T, t, q.tbl) : TRUE o == T[ti] vis == SeqOfSet(VisIdx(t, o)) olds == TabRows(t, o) IN
   CASE q.k = "insert" ->
          LET news == InsRows(q, o) IN
          IF BadTypes(o, news) \/ BreaksNotNull(o, news) \/ BreaksUnique(o, olds, news)
-         THEN [ok |-> FALSE, n |-> 0, tabs |-> tabs]
+         THEN [ok |-> FALSE, n |-> 0, tabs |-> T]
          ELSE [ok |-> TRUE, n |-> Len(news),
-               tabs |-> SetTab(ti, [o EXCEPT !.rows = @ \o [i \in 1..Len(news) |-> NewRow(news[i], t)]])]
+               tabs |-> [T EXCEPT ![ti] = [o EXCEPT !.rows = @ \o [i \in 1..Len(news) |-> NewRow(news[i], t)]]]]
     [] q.k = "delete" ->
          LET hit == {vis[k] : k \in {x \in 1..Len(vis) : IsTrue(Eval(q.where, olds[x]))}} IN
-         IF \E x \in 1..Len(olds) : IsErr(Eval(q.where, olds[x])) THEN [ok |-> FALSE, n |-> 0, tabs |-> tabs]
+         IF \E x \in 1..Len(olds) : IsErr(Eval(q.where, olds[x])) THEN [ok |-> FALSE, n |-> 0, tabs |-> T]
          ELSE [ok |-> TRUE, n |-> Cardinality(hit),
-               tabs |-> SetTab(ti, [o EXCEPT !.rows = [j \in 1..Len(o.rows) |->
-                                      IF j \in hit THEN [o.rows[j] EXCEPT !.del = @ \cup {t}] ELSE o.rows[j]]])]
+               tabs |-> [T EXCEPT ![ti] = [o EXCEPT !.rows = [j \in 1..Len(o.rows) |->
+                                      IF j \in hit THEN [o.rows[j] EXCEPT !.del = @ \cup {t}] ELSE o.rows[j]]]]]
     [] q.k = "update" ->
          LET hitk == {x \in 1..Len(vis) : IsTrue(Eval(q.where, olds[x]))}
              newv(x) == [c \in 1..Len(o.cols) |->
@@ -109,16 +109,23 @@ Dml(q, t) ==
              rest == SelectSeq([x \in 1..Len(olds) |-> IF x \in hitk THEN <<>> ELSE olds[x]], LAMBDA r : r # <<>>)
              bad == \/ \E x \in 1..Len(olds) : IsErr(Eval(q.where, olds[x]))
                     \/ \E k \in 1..Len(news) : \E c \in 1..Len(o.cols) : IsErr(news[k][c])
-         IN IF bad THEN [ok |-> FALSE, n |-> 0, tabs |-> tabs]
+         IN IF bad THEN [ok |-> FALSE, n |-> 0, tabs |-> T]
             ELSE IF BadTypes(o, news) \/ BreaksNotNull(o, news) \/ BreaksUnique(o, rest, news)
-            THEN [ok |-> FALSE, n |-> 0, tabs |-> tabs]
+            THEN [ok |-> FALSE, n |-> 0, tabs |-> T]
             ELSE [ok |-> TRUE, n |-> Cardinality(hitk),
-                  tabs |-> SetTab(ti, [o EXCEPT !.rows = [j \in 1..Len(o.rows) |->
+                  tabs |-> [T EXCEPT ![ti] = [o EXCEPT !.rows = [j \in 1..Len(o.rows) |->
                                          IF \E k \in 1..Len(hitseq) : vis[hitseq[k]] = j
                                          THEN LET k == CHOOSE kk \in 1..Len(hitseq) : vis[hitseq[kk]] = j IN
                                               [o.rows[j] EXCEPT !.vers = <<[vals |-> news[k],
                                                                             by |-> IF Stamp THEN o.rows[j].cr ELSE t]>> \o @]
-                                         ELSE o.rows[j]]])]
+                                         ELSE o.rows[j]]]]]
+
+Dml(q, t) == DmlOn(tabs, q, t)
+
+\* a batch: statements applied one after the other inside one transaction; the first failure fails the batch
+RECURSIVE BatchOn(_, _, _)
+BatchOn(T, qs, t) == IF qs = <<>> THEN [ok |-> TRUE, tabs |-> T]
+                     ELSE LET r == DmlOn(T, Head(qs), t) IN IF r.ok THEN BatchOn(r.tabs, Tail(qs), t) ELSE [ok |-> FALSE, tabs |-> T]
 
 DmlOk(q, t, out) == LET r == Dml(q, t) IN
                     IF r.ok THEN (IF out.k = "count" THEN out.n = r.n ELSE FALSE) ELSE out.k = "err"
